@@ -79,6 +79,10 @@ pub fn pulls_for(data: &[Datum], m: usize) -> BoxedStrategy<Vec<Pull>> {
                     let as_ = match (kind, pick) {
                         (1, 0) | (1, 1) => PullAs::DataF64,
                         (2, 0) | (2, 1) => PullAs::DataBytes,
+                        // a typed pull on an element of another kind (number as bytes, string as integer, ...)
+                        (1, 2) => PullAs::DataBytes,
+                        (2, 2) => PullAs::DataI32,
+                        (0, 0) => PullAs::DataBytes,
                         (3, 0) => PullAs::DataI32,
                         (3, 1) => PullAs::DataBool,
                         (3, 2) => PullAs::DataBytes,
